@@ -256,13 +256,13 @@ impl C12 {
         let t = excise(&t_out, &sigint);
         let mut pieces: Vec<Expect> = Vec::new();
         let ex = |p: Piece, c: &'static str, n: String| Expect { piece: p, clause: c, note: n };
-        // banner: two lines, wording free
+        // banner: whole lines of free wording, up to the first prompt
         let mut pos0 = 0usize;
-        for _ in 0..2 {
+        while !t[pos0..].starts_with(PROMPT) {
             match t[pos0..].iter().position(|&b| b == b'\n') {
                 Some(e) => pos0 += e + 1,
                 None => {
-                    out.violation = Some(Violation::new("banner", "two banner lines", truncate(&String::from_utf8_lossy(&t), 200)));
+                    out.violation = Some(Violation::new("banner", "banner lines, then a prompt", truncate(&String::from_utf8_lossy(&t), 200)));
                     return out;
                 }
             }
